@@ -4,11 +4,12 @@ CONSTANTS
  Options <- OptsGen
  MaxProg = 1
  Places <- AllPlaces
- FixData = FALSE
- FixWriter = FALSE
- FixAdded = FALSE
- FixTag = FALSE
- FixClose = FALSE
+ FixData = TRUE
+ FixWriter = TRUE
+ FixAdded = TRUE
+ FixTag = TRUE
+ FixClose = TRUE
+ FixDesc = TRUE
  SrcKinds = {"reg", "dir"}
  Fine = FALSE
 SPECIFICATION Spec
